@@ -1232,14 +1232,24 @@ fn gen_case(r: &mut Prng, nmsgs: usize) -> CaseSpec {
 // ------------------------------------------------------------------------------------------------
 // running a case
 // ------------------------------------------------------------------------------------------------
-fn classify(feat: &spec::Feat, src: Option<(char, u8)>) -> &'static str {
+/// `src`: source of the first differing log word; `diff`: what differs in the final state
+/// ('x' liveness / code / nonce, 'l' storage slots, 'b' balance, 'e' events, 'c' exit code)
+fn classify(feat: &spec::Feat, src: Option<(char, u8)>, diff: Option<char>) -> &'static str {
     match src {
-        Some(('t', _)) => "transient-leak",
-        Some((_, f)) if f & 2 != 0 => "readonly-effect",
-        Some(('e', _)) => "delegatecall-context",
-        Some((_, f)) if f & 1 != 0 => "delegatecall-context",
-        Some(('s', _)) if feat.failed_call && !feat.reentrant => "reverted-write-visible",
-        Some(('s', _)) => "stale-read-after-reentrancy",
+        Some(('t', _)) => return "transient-leak",
+        Some((_, f)) if f & 2 != 0 => return "readonly-effect",
+        Some(('e', _)) => return "delegatecall-context",
+        Some((_, f)) if f & 1 != 0 => return "delegatecall-context",
+        Some(('s', _)) if feat.failed_call && !feat.reentrant => return "reverted-write-visible",
+        Some(('s', _)) => return "stale-read-after-reentrancy",
+        Some(('k', _)) => return "selfdestruct-semantics",
+        _ => {}
+    }
+    match diff {
+        Some('x') => "selfdestruct-semantics",
+        Some('l') if feat.reentrant => "stale-read-after-reentrancy",
+        Some('l') | Some('b') | Some('e') if feat.failed_call => "reverted-write-visible",
+        Some('b') if feat.selfdestruct => "selfdestruct-semantics",
         _ => {
             if feat.selfdestruct || feat.create {
                 "selfdestruct-semantics"
@@ -1410,10 +1420,16 @@ fn run_case(cs: &CaseSpec, stats: &mut Stats) -> (Case, Vec<serde_json::Value>) 
             src = slog.get(k).map(|x| (x.1, x.2));
             what.push(format!("read log differs at {}: implementation {:?} specification {:?}", k, log, slog_v));
         }
+        let mut diff: Option<char> = if scode != code { Some('c') } else { None };
         for (ma, o) in &addr_obs {
             let so = spec::obs_addr(&sw, *ma);
             if so != *o {
                 what.push(format!("address {}: implementation {:?} specification {:?}", ma, o, so));
+                let d = if so.status != o.status || so.codeid != o.codeid || so.nonce != o.nonce { 'x' }
+                        else if so.slots != o.slots { 'l' } else { 'b' };
+                if diff.is_none() || diff == Some('c') || d == 'x' {
+                    diff = Some(d);
+                }
             }
         }
         let mut sev0 = sw.events.clone();
@@ -1421,10 +1437,13 @@ fn run_case(cs: &CaseSpec, stats: &mut Stats) -> (Case, Vec<serde_json::Value>) 
         let sev: Vec<(MAddr, String)> = sev0.iter().map(|(a, t)| (*a, t.to_string())).collect();
         if sev != evs_m {
             what.push(format!("events: implementation {:?} specification {:?}", evs_m, sev));
+            if diff.is_none() {
+                diff = Some('e');
+            }
         }
         if !what.is_empty() {
             fails.push(serde_json::json!({
-                "class": classify(&feat, src), "step": i, "what": what,
+                "class": classify(&feat, src, diff), "step": i, "what": what,
                 "case": CaseSpec { msgs: cs.msgs[..=i].to_vec(), ..cs.clone() },
             }));
         }
